@@ -723,6 +723,19 @@ Section Proxy.
     mkServer (s_slots sv) (s_nextid sv) (s_lostrqs sv) (s_connstate sv) (s_statsrv sv) (s_lastrcv sv) (s_lastreply sv)
              laststatsrv timeout newrq conreset requested.
 
+  (* what the writer does with one occupied slot it visits *)
+  Inductive action := ASkip | APurgeProbe | AAbandon | ASend.
+
+  (* (action, tries afterwards, expiry afterwards); for ASkip/APurgeProbe/AAbandon the counters are those
+     before the slot is released (purge/abandon) or unchanged (skip) *)
+  Definition slot_action (retryint retrycount : N) (isprobe do_resend : bool) (now : Z) (tries : N) (expiry : Z) : action * N * Z :=
+    if negb do_resend && (now <? expiry)%Z then (ASkip, tries, expiry)
+    else
+      let tries1 := if do_resend && (0 <? tries) then tries - 1 else tries in
+      if do_resend && isprobe then (APurgeProbe, tries1, expiry)
+      else if tries1 =? (if isprobe then 1 else retrycount + 1) then (AAbandon, tries1, expiry)
+      else (ASend, tries1 + 1, (now + Z.of_N retryint)%Z).
+
   (* the `for (i = 0; i < MAX_REQUESTS; i++)` loop over occupied slots *)
   Fixpoint slots_pass (fuel : nat) (st : state) (s : nat) (i : nat) (now : Z) (do_resend putfail : bool) : state * list out :=
     match fuel with
@@ -740,32 +753,33 @@ Section Proxy.
             | Some r =>
                 let buf := match rq_buf r with Some b => b | None => [] end in
                 let isprobe := nth 0 buf 0 =? Consts.RAD_Status_Server in
-                let tries0 := sl_tries sl in
-                let skip := negb do_resend && (now <? sl_expiry sl)%Z in
-                if skip then
-                  next (set_server st s (set_wr sv (s_laststatsrv sv) (min_timeout (s_timeout sv) (sl_expiry sl)) (s_newrq sv) (s_conreset sv) (s_statsrv_requested sv))) []
-                else
-                  let tries := if do_resend && (0 <? tries0) then tries0 - 1 else tries0 in
-                  let requested := if (0 <? tries) && (Z.of_N (sc_retryint sc) <? now - s_lastrcv sv)%Z && negb do_resend then true else s_statsrv_requested sv in
-                  let sv1 := set_slot (set_wr sv (s_laststatsrv sv) (s_timeout sv) (s_newrq sv) (s_conreset sv) requested) (N.of_nat i) (mkSlot (Some h) tries (sl_expiry sl)) in
-                  let st1 := set_server st s sv1 in
-                  if do_resend && isprobe then next (freerqoutdata st1 s (N.of_nat i)) []
-                  else if tries =? (if isprobe then 1 else sc_retrycount sc + 1) then
-                    (* abandoned *)
-                    let mode := s_statsrv sv1 in
-                    let sv2 :=
-                      if (mode =? Consts.RSP_STATSRV_ON) || (mode =? Consts.RSP_STATSRV_MINIMAL) then
-                        (if isprobe then incrementlostrqs sv1 else sv1)
-                      else if (mode =? Consts.RSP_STATSRV_AUTO) && isprobe then
-                        (if (s_laststatsrv sv1 <=? s_lastreply sv1)%Z then set_statsrv sv1 Consts.RSP_STATSRV_OFF else sv1)
-                      else incrementlostrqs sv1 in
-                    next (freerqoutdata (set_server st1 s sv2) s (N.of_nat i)) []
-                  else
-                    let expiry := (now + Z.of_N (sc_retryint sc))%Z in
-                    let sv2 := set_slot (set_wr sv1 (s_laststatsrv sv1) (min_timeout (s_timeout sv1) expiry) (s_newrq sv1) (s_conreset sv1) (s_statsrv_requested sv1))
-                                 (N.of_nat i) (mkSlot (Some h) (tries + 1) expiry) in
-                    let sv3 := if putfail then incrementlostrqs sv2 else sv2 in
-                    next (set_server st1 s sv3) [OTx s (N.of_nat i) buf]
+                let '(act, tries, expiry) := slot_action (sc_retryint sc) (sc_retrycount sc) isprobe do_resend now (sl_tries sl) (sl_expiry sl) in
+                match act with
+                | ASkip =>
+                    next (set_server st s (set_wr sv (s_laststatsrv sv) (min_timeout (s_timeout sv) (sl_expiry sl)) (s_newrq sv) (s_conreset sv) (s_statsrv_requested sv))) []
+                | _ =>
+                    let tries1 := if do_resend && (0 <? sl_tries sl) then sl_tries sl - 1 else sl_tries sl in
+                    let requested := if (0 <? tries1) && (Z.of_N (sc_retryint sc) <? now - s_lastrcv sv)%Z && negb do_resend then true else s_statsrv_requested sv in
+                    let sv1 := set_slot (set_wr sv (s_laststatsrv sv) (s_timeout sv) (s_newrq sv) (s_conreset sv) requested) (N.of_nat i) (mkSlot (Some h) tries1 (sl_expiry sl)) in
+                    let st1 := set_server st s sv1 in
+                    match act with
+                    | APurgeProbe => next (freerqoutdata st1 s (N.of_nat i)) []
+                    | AAbandon =>
+                        let mode := s_statsrv sv1 in
+                        let sv2 :=
+                          if (mode =? Consts.RSP_STATSRV_ON) || (mode =? Consts.RSP_STATSRV_MINIMAL) then
+                            (if isprobe then incrementlostrqs sv1 else sv1)
+                          else if (mode =? Consts.RSP_STATSRV_AUTO) && isprobe then
+                            (if (s_laststatsrv sv1 <=? s_lastreply sv1)%Z then set_statsrv sv1 Consts.RSP_STATSRV_OFF else sv1)
+                          else incrementlostrqs sv1 in
+                        next (freerqoutdata (set_server st1 s sv2) s (N.of_nat i)) []
+                    | _ =>
+                        let sv2 := set_slot (set_wr sv1 (s_laststatsrv sv1) (min_timeout (s_timeout sv1) expiry) (s_newrq sv1) (s_conreset sv1) (s_statsrv_requested sv1))
+                                     (N.of_nat i) (mkSlot (Some h) tries expiry) in
+                        let sv3 := if putfail then incrementlostrqs sv2 else sv2 in
+                        next (set_server st1 s sv3) [OTx s (N.of_nat i) buf]
+                    end
+                end
             end
         end
     end.
